@@ -203,6 +203,33 @@ Corrupt(bytes, c) ==
     ELSE bytes
 
 (* ------------------------------------------------------------------------------------------------------------ *)
+(* Identity as the user sees it (C16): every field exactly as encoded, vendor / product type through the exported  *)
+(* tables or 'UNKNOWN', serial as 8 lower-case hex digits.                                                          *)
+K(str) == str
+HexDig(d) == IF d < 10 THEN 48 + d ELSE 87 + d
+Hex8(b4) == <<HexDig(b4[4] \div 16), HexDig(b4[4] % 16), HexDig(b4[3] \div 16), HexDig(b4[3] % 16),
+              HexDig(b4[2] \div 16), HexDig(b4[2] % 16), HexDig(b4[1] \div 16), HexDig(b4[1] % 16)>>
+Unknown == <<85, 78, 75, 78, 79, 87, 78>>
+Field(v, name) == DictGet(v.d, name)
+FieldIs(v, name, x) == Field(v, name).ok /\ TermEq(Field(v, name).v, x)
+IdentityClause(i, v, list) ==
+    IF ~IsD(v) THEN "C16:field:shape"
+    ELSE IF ~FieldIs(v, <<118, 101, 110, 100, 111, 114>>, MkS(IF i.vendor_text.has = 1 THEN i.vendor_text.s ELSE Unknown)) THEN "C16:field:vendor"
+    ELSE IF ~FieldIs(v, <<112, 114, 111, 100, 117, 99, 116, 95, 116, 121, 112, 101>>, MkS(IF i.ptype_text.has = 1 THEN i.ptype_text.s ELSE Unknown)) THEN "C16:field:product_type"
+    ELSE IF ~FieldIs(v, <<112, 114, 111, 100, 117, 99, 116, 95, 99, 111, 100, 101>>, MkI(SmallToBig(i.product_code))) THEN "C16:field:product_code"
+    ELSE IF ~FieldIs(v, <<114, 101, 118, 105, 115, 105, 111, 110>>, MkD(<<<<MkS(<<109, 97, 106, 111, 114>>), MkI(SmallToBig(i.rev_major))>>,
+                                                                         <<MkS(<<109, 105, 110, 111, 114>>), MkI(SmallToBig(i.rev_minor))>>>>)) THEN "C16:field:revision"
+    ELSE IF ~FieldIs(v, <<115, 116, 97, 116, 117, 115>>, [b |-> i.status]) THEN "C16:field:status"
+    ELSE IF ~FieldIs(v, <<115, 101, 114, 105, 97, 108>>, MkS(Hex8(i.serial_b))) THEN "C16:serial-format"
+    ELSE IF ~FieldIs(v, <<112, 114, 111, 100, 117, 99, 116, 95, 110, 97, 109, 101>>, MkS(i.name)) THEN "C16:field:product_name"
+    ELSE IF list /\ ~FieldIs(v, <<105, 112, 95, 97, 100, 100, 114, 101, 115, 115>>, MkS(QuadText(i.ip, 1))) THEN "C16:field:ip_address"
+    ELSE IF list /\ ~FieldIs(v, <<115, 116, 97, 116, 101>>, MkI(SmallToBig(i.state))) THEN "C16:field:state"
+    ELSE IF list /\ ~FieldIs(v, <<101, 110, 99, 97, 112, 95, 112, 114, 111, 116, 111, 99, 111, 108, 95, 118, 101, 114, 115, 105, 111, 110>>, MkI(SmallToBig(1))) THEN "C16:field:encap_protocol_version"
+    ELSE ""
+\* datetime can represent years 1..9999: microseconds below 253402300800000000 (8 bytes little-endian compare on the top bytes)
+TimeInRange(c) == c[8] < 3 \/ (c[8] = 3 /\ c[7] < 132)
+
+(* ------------------------------------------------------------------------------------------------------------ *)
 (* Obligations when a public call returns.                                                                        *)
 TagTruthy(tg) == tg.truthy = 1
 RetStep(m, ev) ==
@@ -231,6 +258,23 @@ RetStep(m, ev) ==
                   ELSE (IF TagTruthy(tg[1]) THEN Bad(m, "C14:reply-decode") ELSE Good(m))
         ELSE IF ~TagTruthy(tg[1]) THEN Bad(m, "C13:failure-on-success")
         ELSE IF tg[1].value = [b |-> m.last.data] THEN Good(m) ELSE Bad(m, "C14:reply-value")
+    ELSE IF api \in {"get_plc_info", "get_module_info", "_list_identity"} THEN
+        (IF ev.outcome # "value" THEN (IF ev.faulted = 1 THEN Good(m) ELSE Bad(m, "C16:exception"))
+         ELSE LET c == IdentityClause(m.ident, ev.result.value, api = "_list_identity") IN IF c = "" THEN Good(m) ELSE Bad(m, c))
+    ELSE IF api = "get_plc_name" THEN
+        (IF ev.outcome # "value" THEN (IF ev.faulted = 1 THEN Good(m) ELSE Bad(m, "C14:helper-exception"))
+         ELSE IF m.lx.on /\ ev.result.value # MkS(m.lx.P.name) THEN Bad(m, "C14:reply-decode") ELSE Good(m))
+    ELSE IF api = "set_plc_time" THEN
+        (IF ev.outcome # "value" THEN (IF ev.faulted = 1 THEN Good(m) ELSE Bad(m, "C14:helper-exception"))
+         ELSE IF Len(ev.result.tags) # 1 \/ ev.result.tags[1].truthy # 1 THEN Bad(m, "C14:time-roundtrip")
+         ELSE IF m.clock # BigToLE(m.call.intent.us, 8) THEN Bad(m, "C14:time-roundtrip") ELSE Good(m))
+    ELSE IF api = "get_plc_time" THEN
+        (IF ev.outcome # "value" THEN (IF ev.faulted = 1 THEN Good(m) ELSE Bad(m, "C14:helper-exception"))
+         ELSE IF Len(ev.result.tags) # 1 THEN Bad(m, "C14:time-roundtrip")
+         ELSE LET tg == ev.result.tags[1] IN
+              IF tg.truthy # 1 \/ ~IsD(tg.value) THEN (IF TimeInRange(m.clock) THEN Bad(m, "C14:time-roundtrip") ELSE Good(m))
+              ELSE LET us == DictGet(tg.value.d, <<109, 105, 99, 114, 111, 115, 101, 99, 111, 110, 100, 115>>) IN
+                   IF us.ok /\ us.v = MkI(LEToBig(m.clock, FALSE)) THEN Good(m) ELSE Bad(m, "C14:time-roundtrip"))
     ELSE LET r == LxRet(m.lx, m.call, ev) IN
          IF r.fail # "" THEN Bad(m, r.fail) ELSE Good([m EXCEPT !.lx = r.lx])
 
